@@ -1321,7 +1321,9 @@ class MyPyAstVisitor:
             }
 
             # Check if the function/class/module is reexported
-            if reexported_key.endswith(name) or module_is_reexported:
+            # The names have to match as a whole, "FooBar" or "_x_impl.Foo" are not reexports of "Bar" or "_impl.Foo"
+            is_reexported_key_of_name = reexported_key == name or reexported_key.endswith(f".{name}")
+            if is_reexported_key_of_name or module_is_reexported:
 
                 # Iterate through all sources (__init__.py files) where it was reexported
                 for reexport_source in self.api.reexport_map[reexported_key]:
@@ -1365,12 +1367,13 @@ class MyPyAstVisitor:
                                 return True
 
                     # A specific function or class was reexported.
-                    if reexported_key.endswith(name):
+                    if is_reexported_key_of_name:
 
                         # For wildcard imports we check in the _is_public method if the func / class is internal
                         for qualified_import in reexport_source.qualified_imports:
 
-                            if qname.endswith(qualified_import.qualified_name) and (
+                            imported_qname = qualified_import.qualified_name
+                            if (qname == imported_qname or qname.endswith(f".{imported_qname}")) and (
                                 qualified_import.alias is not None
                                 and not is_internal(qualified_import.alias)
                                 or (qualified_import.alias is None and not_internal)
